@@ -18,6 +18,7 @@ CONSTANTS OptsSet,    \* set of option records
           Vals,       \* measurement values (integers)
           Res,        \* resource attributes (ordered by key)
           Bounds,     \* explicit histogram boundaries (integers, ascending)
+          Scopes,     \* scope records [id, name, version, url] with a non-default identity
           MaxInst, MaxRec, MaxScr
 
 VARIABLES o, started, created, recs, cache, nscr, out, hist, act
@@ -53,7 +54,8 @@ Stream(in) ==
   IN [inst |-> in.id, scope |-> in.scope, data |-> DataOf(in.kind), points |-> [k \in 1..Len(used) |-> Point(in, used[k])]]
 Streams == LET live == SelectSeq(created, LAMBDA in : \E j \in 1..Len(recs) : recs[j].i = in.id)
            IN [k \in 1..Len(live) |-> Stream(live[k])]
-Env == [o |-> o, res |-> Res, insts |-> created, ases |-> ASes, bounds |-> [k \in 1..Len(Bounds) |-> ToString(Bounds[k])]]
+Env == [o |-> o, res |-> Res, insts |-> created, ases |-> ASes, bounds |-> [k \in 1..Len(Bounds) |-> ToString(Bounds[k])],
+        scopes |-> Scopes]
 
 (* ---- actions ---- *)
 Init == /\ o = NoOpts /\ started = FALSE /\ created = <<>> /\ recs = <<>> /\ cache = {} /\ nscr = 0
@@ -77,7 +79,8 @@ Rec(k, a, v) == /\ started /\ Len(recs) < MaxRec /\ k \in 1..Len(created)
                 /\ Log([op |-> "Rec", inst |-> created[k].id, as |-> a, v |-> v])
                 /\ UNCHANGED <<o, started, created, cache, nscr>>
 
-Scr == /\ started /\ nscr < MaxScr /\ recs # <<>>
+Scr == /\ started /\ nscr < MaxScr /\ created # <<>>
+       /\ (recs # <<>> \/ (MaxScr > 1 /\ nscr = 0))   \* one scrape before any measurement, where another can follow
        /\ LET r == Scrape(Env, Streams, cache, NameMap(Env, Canon), {}) IN
           /\ cache' = r.cache
           /\ out' = [scr |-> TRUE, fams |-> r.fams]
@@ -97,7 +100,7 @@ EmitEdge == (act'.op # "Scrape") \/ PrintT("EDGE " \o ToJson([path |-> hist, act
 (* ---- the statement on the model ---- *)
 LegalLabel(n) == n # ""    \* rendered names are legal by construction of LabelName; emptiness is the residual case
 Inv ==
-  /\ \A k \in 1..Len(created) : \A ch \in Choices : NameClauses(o, created[k], ch)
+  /\ (recs = <<>>) => \A k \in 1..Len(created) : \A ch \in Choices : NameClauses(o, created[k], ch)
   /\ \A c1, c2 \in cache : c1.name = c2.name => c1 = c2                  \* one definition per family
   /\ \A f \in out.fams : \A s \in f.series :
         /\ \A l \in s.labels : LegalLabel(l.n)
